@@ -669,3 +669,10 @@ def r13(rr, repo):
             before = [s for s in lst[:i] if isinstance(s, ast.Expr) and isinstance(s.value, ast.Call) and U(s.value.func) == 'self.new_recv']
             rr.ob('the complete sets are dropped (self.new_recv()) before the error leaves recv()', bool(before), za.mod, r, witness=U(r)[:90], key='raise-after-complete-set-drops-it')
     rr.floor('raise statements in the delivery block of recv()', n, 1, za.mod, za.R_recv)
+
+
+@rule('C04.R14', "a consumer that leaves does not open the gate for the others: after a CLOSE the publisher decides again who it waits for from ALL the consumers it knows (the same decision every request "
+                 "triggers), not from the consumers on the closing one's socket - a consumer stalled on another output of the publisher would be sent one more frame per CLOSE (shares C03.R6)")
+def r14(rr, repo):
+    from .c03 import r6 as c03r6
+    c03r6(rr, repo)
